@@ -233,7 +233,15 @@ def _fix_key(key):
         flat = key.reshape(-1)
         if flat.size and builtins.all(isinstance(v, (bool, _np.bool_, SymBool)) for v in flat):
             return _to_bool_array(key)
-        return key
+        # exact integers (np.arange, integer arithmetic on it) used as an index array
+        ints = []
+        for v in flat:
+            if isinstance(v, Sx):
+                v = v.as_fraction()
+            if isinstance(v, bool) or not isinstance(v, (int, Fraction)) or (isinstance(v, Fraction) and v.denominator != 1):
+                return key
+            ints.append(int(v))
+        return _np.asarray(ints, dtype=_np.intp).reshape(key.shape)
     if isinstance(key, tuple) and builtins.any(isinstance(k, _np.ndarray) and k.dtype == object for k in key):
         return tuple(_fix_key(k) for k in key)
     return key
